@@ -186,21 +186,25 @@ VReveal(ev) ==
 
 \* hide, reveal directly, reveal after encode/decode (C11)
 VHideReveal(ev) ==
-  (IF ~Has(ev, "h") \/ Has(ev.h, "t") THEN <<"outcome-panic">>       \* the whole chain panicked
+  (IF ~Has(ev, "h") \/ Has(ev.h, "t") THEN <<"outcome-panic">>       \* hiding or the direct reveal panicked
    ELSE
    LET sp == Hide(MD5H, ev.v, ev.secret, ev.rv, ev.lp, ev.ap)
        inDomain == ~IsHidden(ev.v) /\ EncodableAvp(ev.v)
-                     /\ 2 + ValueLength(ev.v) + Len(ev.lp) <= 1008
+       \* the hidden AVP itself must fit the 10-bit length to travel: otherwise the encoder refuses it (C07's
+       \* business) and only the direct path applies
+       travels == sp.v.k = "Hidden" /\ 6 + Len(sp.v.f[2]) <= MaxAvpLength
    IN IF sp.panic THEN <<"harness-hide-panic">>
       ELSE T(~AvpEq(sp.v, ev.h), "hide-value")
            \o T(IsHidden(ev.v) /\ ~AvpEq(ev.v, ev.h), "hide-of-hidden")
            \o (IF ~inDomain THEN << >>
                ELSE T(~(ev.r1.t = "ok" /\ AvpEq(ev.r1.v, ev.v)), "reveal-direct")
                     \o T(~ev.eq1, "native-eq")
-                    \o T(ev.enc # AvpRecord(sp.v), "hide-wire")
-                    \o T(sp.v.k = "Hidden" /\ HideWireBad(ev.enc, sp.v), "hide-wire-form")
-                    \o (IF ~Has(ev, "r2") THEN <<"reveal-wire">>
-                        ELSE T(~(ev.r2.t = "ok" /\ AvpEq(ev.r2.v, ev.v)), "reveal-wire")
-                             \o T(~ev.eq2, "native-eq"))))
+                    \o (IF ~travels THEN T(~Has(ev, "wire_panic"), "oversize-accepted")
+                        ELSE IF Has(ev, "wire_panic") THEN <<"wire-panic">>
+                        ELSE T(ev.enc # AvpRecord(sp.v), "hide-wire")
+                             \o T(HideWireBad(ev.enc, sp.v), "hide-wire-form")
+                             \o (IF ~Has(ev, "r2") THEN <<"reveal-wire">>
+                                 ELSE T(~(ev.r2.t = "ok" /\ AvpEq(ev.r2.v, ev.v)), "reveal-wire")
+                                      \o T(~ev.eq2, "native-eq")))))
   \o IoTags(ev)
 =============================================================================
